@@ -216,6 +216,29 @@ impl<'a> Walker<'a> {
                     ecall["m"] = json!(format!("t_{m}"));
                 }
             }
+            // OwnershipMC.tla Interfere(k): some other operation of the contract under test, run by the current
+            // admin; its own outcome is not judged (the digest carries TRUE), only that the handover state stays put
+            let interfere = ecall["m"] == "interfere" || ecall["m"] == "t_interfere";
+            if interfere {
+                let adm = ecall["s"].clone();
+                let op = ecall["op"].as_str().unwrap_or("").to_string();
+                ecall = if run.digest_kind == "ownership:treasury" {
+                    match op.as_str() {
+                        "breaker" => json!({"m":"t_update_config","s":adm,"has_trader":false,"trader":"","has_routes":true,
+                                            "routes":[[{"pool":1,"din":"uosmo","dout":"IBCTIA"}]]}),
+                        "resume" => json!({"m":"t_spend","s":adm,"den":"IBCTIA","amt":1,"receiver":"u1","channel":""}),
+                        "config" => json!({"m":"t_update_config","s":adm,"has_trader":true,"trader":"u1","has_routes":false,"routes":[]}),
+                        _ => json!({"m":"t_swap_in","s":"trader","route":[],"den":"uosmo","amt":7,"limit":3}),
+                    }
+                } else {
+                    match op.as_str() {
+                        "breaker" => json!({"m":"circuit_breaker","s":adm}),
+                        "resume" => json!({"m":"resume_contract","s":adm,"n":0,"l":0,"r":0}),
+                        "config" => json!({"m":"update_config","s":adm,"up":{"period":{"secs":86401}}}),
+                        _ => json!({"m":"migrate_roundtrip","s":adm}),
+                    }
+                };
+            }
             let (call, out) = run.step(&ecall);
             if silent {
                 // executed only to reach this process's share; counted and compared by share 0
@@ -241,13 +264,16 @@ impl<'a> Walker<'a> {
                 self.stats.refused_edges += 1;
             }
             let post = project(&run.w);
+            let dok = out.ok || interfere;
             let d = match run.digest_kind.as_str() {
-                "ownership:staking" => json!([out.ok, post["c"]["admin"], post["c"]["pending"], ju(&post["c"], "minTime").rem_euclid(100000)]),
-                "ownership:treasury" => json!([out.ok, post["t"]["admin"], post["t"]["pending"], ju(&post["t"], "minTime").rem_euclid(100000)]),
-                "treasury" => json!([out.ok, post["t"]["trader"], post["t"]["routes"].as_array().map(|a| a.len()).unwrap_or(0), out.msgs.len()]),
+                "ownership:staking" => json!([dok, post["c"]["admin"], post["c"]["pending"], ju(&post["c"], "minTime").rem_euclid(100000)]),
+                "ownership:treasury" => json!([dok, post["t"]["admin"], post["t"]["pending"], ju(&post["t"], "minTime").rem_euclid(100000)]),
+                "treasury" => json!([out.ok, post["t"]["trader"], post["t"]["routes"].as_array().map(|a| a.len()).unwrap_or(0), out.msgs.iter().map(|m| m["k"].clone()).collect::<Vec<_>>()]),
                 _ => digest(out.ok, &post, &out.msgs),
             };
-            let mismatch = d != norm_expected(&e.digest);
+            // a panic inside the code under test is a finding whatever the model predicted for the call (a refusal
+            // and a panic look the same in the digest): always kept for validation
+            let mismatch = d != norm_expected(&e.digest) || out.panic;
             // transitions that emit messages are always kept for full validation in the small models
             let always = run.digest_kind != "staking" && out.ok && !out.msgs.is_empty();
             let sampled = self.sample_mod > 0 && (e.id.wrapping_mul(0x9E3779B97F4A7C15) ^ self.seed) % self.sample_mod == 0;
